@@ -42,6 +42,8 @@ type Program struct {
 	RepoDir    string
 	Extra      map[string]interface{} // model tables (json field tables, ...)
 	InitProblems []string
+	rtypeOnce    sync.Once
+	rtypeT       types.Type
 	sumOK        map[*ssa.Function]bool
 	sumMu        sync.Mutex
 }
